@@ -11,7 +11,7 @@ pub const RULE: &str = "cases: (a) deliberately ill-formed grammars - a catalogu
 pub fn run(world: &World, ctx: &mut Ctx) -> Option<Value> {
     ctx.ev.rule = RULE.to_string();
     // (a) results of the generator library on the ill-formed family (written by verif_gen)
-    let path = std::path::Path::new(crate::common::VERIF_ROOT).join("work").join("c11_gen.json");
+    let path = crate::common::work_dir().join("c11_gen.json");
     let doc: Value = match std::fs::read_to_string(&path).ok().and_then(|t| serde_json::from_str(&t).ok()) {
         Some(d) => d,
         None => {
